@@ -53,7 +53,7 @@ def float_layout(context, box, containing_block, absolute_boxes, fixed_boxes,
 
     if isinstance(box, boxes.BlockReplacedBox):
         inline_replaced_box_width_height(box, containing_block)
-    elif box.width == 'auto':
+    else:
         float_width(box, context, containing_block)
 
     if box.is_table_wrapper:
